@@ -12,5 +12,6 @@ open PhQVerif Generated PhQVerif.Props.C12
 #print axioms strain_rate_ignored
 #print axioms all_formats
 #print axioms overloads_same_formula
+#print axioms PhQVerif.Props.C12.overloads_keep_precision
 #eval s!"COUNT C12.model_overload_rows {ModelOverloads.rows.length}"
 #eval s!"COUNT C12.format_triples {FmtTriples.rows.length}"
